@@ -112,7 +112,8 @@ func (its *TransactionDatatype) BeginTransaction(
 	txCtx *TransactionContext,
 	newTxnOp bool,
 ) *TransactionContext {
-	if its.isLocked && its.txCtx == txCtx {
+	// Only the goroutine running a transaction has its (non-nil) context; any other caller has to wait for the lock.
+	if txCtx != nil && its.isLocked && its.txCtx == txCtx {
 		return nil // called after DoTransaction() succeeds.
 	}
 	its.txCtx = its.setTransactionContextAndLock(tag)
@@ -177,10 +178,12 @@ func (its *TransactionDatatype) EndTransaction(txCtx *TransactionContext, withOp
 
 func (its *TransactionDatatype) unlock() {
 	if its.isLocked {
+		// isLocked has to be cleared while the lock is still held;
+		// afterwards it belongs to the next owner, who would never unlock if it were overwritten.
+		its.isLocked = false
 		its.txCtx = nil
 		its.success = true
 		its.mutex.Unlock()
-		its.isLocked = false
 	}
 }
 
